@@ -419,10 +419,14 @@ class cpr {
             scatter->set_nonzeros(np);
             scatter->ptr[0] = 0;
 
+            // App couples the active (pressure) unknowns only: with
+            // active_rows set, columns >= np do not belong to it.
             auto App = std::make_shared<build_matrix_p>();
             App->set_size(np, np, true);
-            App->set_nonzeros(K->nnz);
-            App->ptr[0] = 0;
+            for (ptrdiff_t i = 0; i < static_cast<ptrdiff_t>(np); ++i)
+                for(ptrdiff_t j = K->ptr[i]; j < K->ptr[i + 1]; ++j)
+                    if (K->col[j] < static_cast<ptrdiff_t>(np)) ++App->ptr[i+1];
+            App->set_nonzeros(App->scan_row_sizes());
 
 #pragma omp parallel for
             for (ptrdiff_t i = 0; i < static_cast<ptrdiff_t>(np); ++i) {
@@ -438,7 +442,6 @@ class cpr {
 
                 ptrdiff_t row_beg = K->ptr[i];
                 ptrdiff_t row_end = K->ptr[i + 1];
-                App->ptr[i+1] = row_end;
 
                 // Extract and invert block diagonals
                 value_type_p *d = &fpp->val[i * B];
@@ -450,13 +453,17 @@ class cpr {
                     }
                 }
 
+                ptrdiff_t head = App->ptr[i];
                 for(ptrdiff_t j = row_beg; j < row_end; ++j) {
+                    if (K->col[j] >= static_cast<ptrdiff_t>(np)) continue;
+
                     value_type_p app = 0;
                     for(int k = 0; k < B; ++k)
                         app += d[k] * K->val[j](k,0);
 
-                    App->col[j] = K->col[j];
-                    App->val[j] = app;
+                    App->col[head] = K->col[j];
+                    App->val[head] = app;
+                    ++head;
                 }
             }
 
